@@ -34,7 +34,7 @@ MODELLED = [
     "_has_unsafe_url_chars", "_validate_original_url", "_is_localhost", "_validate_return_to",
     "_pack_oauth_cookie", "_unpack_oauth_cookie",
     "_OAuthCallbackResource.on_get", "_OAuthLogoutResource.on_get",
-    "_OAuthPkceMiddleware.process_request", "_OAuthPkceMiddleware.process_response",
+    "_OAuthPkceMiddleware.__init__", "_OAuthPkceMiddleware.process_request", "_OAuthPkceMiddleware.process_response",
 ]
 
 
@@ -179,6 +179,31 @@ def _min_cookie_len(fn: ast.FunctionDef) -> int:
     raise Unsupported("_unpack_oauth_cookie: minimum length not found")
 
 
+def _allow_defaulting(fn: ast.FunctionDef) -> str:
+    """How `_OAuthPkceMiddleware.__init__` turns its `allowed_return_origins` argument into the allow-list in force:
+    `X if X is not None else DEFAULT` → "isNotNone" (an explicit value, even an empty one, is used as given);
+    `X or DEFAULT` / `X if X else DEFAULT` → "truthy" (an empty value is replaced by the default)."""
+    arg, dflt = "allowed_return_origins", "_DEFAULT_ALLOWED_RETURN_ORIGINS"
+    found = []
+    for n in ast.walk(fn):
+        if isinstance(n, ast.Assign) and len(n.targets) == 1 and ast.unparse(n.targets[0]) == "self._allowed_return_origins":
+            found.append(n.value)
+    if len(found) != 1:
+        raise Unsupported(f"_OAuthPkceMiddleware.__init__: {len(found)} assignments to self._allowed_return_origins")
+    v = found[0]
+    if isinstance(v, ast.IfExp) and ast.unparse(v.body) == arg and ast.unparse(v.orelse) == dflt:
+        t = ast.unparse(v.test)
+        if t == f"{arg} is not None":
+            return "isNotNone"
+        if t == arg:
+            return "truthy"
+    if isinstance(v, ast.IfExp) and ast.unparse(v.body) == dflt and ast.unparse(v.orelse) == arg and ast.unparse(v.test) == f"{arg} is None":
+        return "isNotNone"
+    if isinstance(v, ast.BoolOp) and isinstance(v.op, ast.Or) and [ast.unparse(x) for x in v.values] == [arg, dflt]:
+        return "truthy"
+    raise Unsupported(f"_OAuthPkceMiddleware.__init__: unrecognised defaulting of the allow-list: {ast.unparse(v)}")
+
+
 def _struct_formats(fn: ast.FunctionDef, func: str) -> list[str]:
     out = []
     for n in ast.walk(fn):
@@ -228,6 +253,7 @@ def emit() -> dict[str, str]:
     widths = [struct.calcsize(f) for f in ("B", "<Q", "<H")]
     fps = [(n, fingerprint(fns[n])) for n in MODELLED if n in fns]
     lower = lower_to_ascii()
+    defaulting = _allow_defaulting(fns["_OAuthPkceMiddleware.__init__"])
     body = f"""namespace VgiVerif.Gen.Pkce
 
 /-- which transliterated shape (extract/c37_shapes/*.py.txt) a validator has -/
@@ -240,6 +266,14 @@ deriving Repr, DecidableEq
 def returnToShape : Shape := .{rt_shape}
 /-- `_validate_original_url` -/
 def originalUrlShape : Shape := .{ou_shape}
+
+/-- how `_OAuthPkceMiddleware.__init__` defaults its `allowed_return_origins` argument -/
+inductive Defaulting where
+  | isNotNone   -- `X if X is not None else DEFAULT`: an explicit (even empty) allow-list is used as given
+  | truthy      -- `X or DEFAULT`: an empty allow-list is replaced by the default
+deriving Repr, DecidableEq
+
+def allowDefaulting : Defaulting := .{defaulting}
 
 /-- `_DEFAULT_ALLOWED_RETURN_ORIGINS` (sorted) -/
 def defaultAllowedReturnOrigins : List (List Char) := {_strs(sorted(m._DEFAULT_ALLOWED_RETURN_ORIGINS))}
